@@ -35,6 +35,62 @@ func runC10(c *Ctx) {
 	c.ruleLastFinisher("R10.8")
 	// a submission to a closed queue is rejected with no side effect other than closing the refused job
 	c.ruleSubmitPaths("R10.9", submitChecks{reject: true})
+	// closing a queue only stops submissions: what is pending stays and still runs
+	c.ruleQueueCloseKeepsJobs("R10.10")
+}
+
+// ruleQueueCloseKeepsJobs: no Close of a queue (the bound queue wrappers and the in-memory queues behind them) can
+// synchronously reach an operation that removes or cancels pending jobs (Purge, Dequeue, a job's Close).
+func (c *Ctx) ruleQueueCloseKeepsJobs(rule string) {
+	c.Rep.rule(rule, "call graph (no spawn edges)", "no queue Close reaches Purge, Dequeue or a job's Close", 3)
+	isQueueType := func(t types.Type) bool {
+		if p, ok := t.(*types.Pointer); ok {
+			t = p.Elem()
+		}
+		has := map[string]bool{}
+		for _, tt := range []types.Type{t, types.NewPointer(t)} {
+			ms := types.NewMethodSet(tt)
+			for i := 0; i < ms.Len(); i++ {
+				has[ms.At(i).Obj().Name()] = true
+			}
+		}
+		return has["Purge"] && has["Close"]
+	}
+	n := 0
+	for _, f := range c.P.Funcs {
+		if f.Obj == nil || f.Body == nil || !f.Lib || f.Obj.Name() != "Close" || f.Decl.Recv == nil {
+			continue
+		}
+		recv := f.Obj.Type().(*types.Signature).Recv().Type()
+		if !isQueueType(recv) {
+			continue
+		}
+		n++
+		em := c.emitsSync(f)
+		var hit []string
+		for _, s := range []string{"deq", "qpurge"} {
+			if em[s] {
+				hit = append(hit, s)
+			}
+		}
+		if c.reachesSync(f, kCloserI) {
+			hit = append(hit, "job Close")
+		}
+		// the in-memory queues' own removing methods
+		for _, g := range c.P.Funcs {
+			if g.Obj == nil || g.Decl == nil || g.Decl.Recv == nil || !g.Lib {
+				continue
+			}
+			if nm := g.Obj.Name(); (nm == "Purge" || nm == "Dequeue" || nm == "DequeueWithAckId") && isQueueType(g.Obj.Type().(*types.Signature).Recv().Type()) && c.reachesSync(f, g.Key) {
+				hit = append(hit, shortKey(g.Key))
+			}
+		}
+		c.Rep.check(len(hit) == 0, rule, f.Short(), "queue Close removes or cancels pending jobs", c.P.pos(f.Body), "Close leaves the pending jobs alone",
+			fmt.Sprintf("%s can synchronously reach %v: closing the queue would remove or cancel jobs that were accepted before and must still run", f.Short(), hit))
+	}
+	if n == 0 {
+		c.Rep.undecided(rule, "-", "no queue Close", "", "no Close method of a queue type found")
+	}
 }
 
 // statusStoreSites: every plain store of the job status (direct Store or via
